@@ -589,6 +589,16 @@ def run_impl(scn, behaviour=None, sim_options=None, draw_seed=0, keep_logging=Fa
         finally:
             if not keep_logging:
                 quiet_logging()
+    if crash is not None and crash.startswith("Runaway"):
+        # a run that had to be stopped by the cap is reported as such; keeping 150 000 observations (and a table
+        # row per trigger) of every such run would exhaust the memory when a change makes many scenarios run away
+        keep = 4000
+        rec.trace = rec.trace[:keep]
+        rec.table = dict(list(rec.table.items())[:keep])
+        rec.time_types = rec.time_types[:keep]
+        rec.positions = rec.positions[:keep]
+        rec.own_pos = rec.own_pos[:keep]
+        rets = rets[:keep]
     n = scn["cfg"]["nNodes"]
     final_pos = None
     if rec.sim is not None:
